@@ -29,7 +29,7 @@ META = {
             "observed config/version/routing) is validated by TLC against the abstract LiveConfigHist spec, which "
             "also requires the version strings to be a function of, and injective in, the content.",
     "design_ref": "DESIGN.md section 4, C35",
-    "level_note": "Candidates come from a pool of 9 named configurations (same, three route sets, invalid routes, bind "
+    "level_note": "Candidates come from a pool of 17 named configurations (same, three route sets, invalid routes, a difference in each root section -- noAutoReload, healthService, connect, api -- alone and with a route change, bind "
                   "changed, bind+routes changed, lite off, nil). The spec requires only what the statement says: which "
                   "rejection code is used, and that an eligible candidate is applied, are not required. 'unchanged' on "
                   "a conditional apply counts as success (as the API treats it) and needs the current version. "
@@ -71,7 +71,7 @@ def run(ctx):
         json.dump(scheds, fh)
 
     ctx.harness("./c35", "TestLiveConfig", race=not ctx.quick,
-                env={"VERIF_SEQ": ctx.pick(60, 300), "VERIF_STRESS": ctx.pick(40, 300)}, timeout=1800)
+                env={"VERIF_SEQ": ctx.pick(90, 400), "VERIF_STRESS": ctx.pick(40, 300)}, timeout=1800)
     st = json.load(open(ctx.path("stats.json")))
     missing = [g for g in ("lc.enter", "lc.checked", "lc.commit", "lc.snapshot") if not st["hook_events"].get(g)]
     if missing:
